@@ -316,24 +316,58 @@ def history_alphabet(tier):
     return out
 
 
+def _gen_docs():
+    """generated documents, incl. packages lacking optional parts, under different path arguments (None = no path)"""
+    from verif.gen import htmlfam, odf, ooxml, plain, rtf
+    doc = ["doc", {"title": "Tt"}, [["unit", [["p", [["t", "Bbcdfg"]]]], {}]]]
+    doc2 = ["doc", {}, [["unit", [["h", 1, [["t", "Hcdfgh"]]], ["p", [["t", "Bdfghj"]]]], {}]]]
+    sh = ["doc", {}, [["sheet", "Nbcdfg", [[["s", "Cbcdfg"], ["i", 5]]]]]]
+    nometa = {"omit_parts": ["meta.xml"]}
+    return {
+        "gen:odt-nometa@A": (odf.odt(doc, opts=nometa), "A.odt"), "gen:ods-nometa@B": (odf.ods(sh, opts=nometa), "dir/B.ods"),
+        "gen:odt-nometa@none": (odf.odt(doc, opts=nometa), None), "gen:odp-nometa@C": (odf.odp(doc2, opts=nometa), "C.odp"),
+        "gen:odt@D": (odf.odt(doc2), "D.odt"), "gen:docx@E": (ooxml.docx(doc), "E.docx"), "gen:docx@none": (ooxml.docx(doc2), None),
+        "gen:pptx@F": (ooxml.pptx(doc), "F.pptx"), "gen:xlsx@G": (ooxml.xlsx(sh), "G.xlsx"), "gen:xlsx@none": (ooxml.xlsx(sh), None),
+        "gen:epub@H": (htmlfam.epub([htmlfam.xhtml_page("<p>Bbcdfg</p>", "t")], {"title": "t"}), "H.epub"),
+        "gen:html@I": (htmlfam.html_page("<p>Bbcdfg</p>").encode(), "I.html"), "gen:rtf@J": (rtf.rtf(doc), "J.rtf"),
+        "gen:txt@none": (plain.txt(["doc", {}, doc[2]]), None),
+    }
+
+
+_GEN = {}
+
+
 def _load(doc):
+    if doc.startswith("gen:"):
+        if not _GEN:
+            _GEN.update(_gen_docs())
+        return _GEN[doc]
     if doc.startswith("trunc:"):
         data = open(os.path.join(FIX, doc[6:]), "rb").read()
         return data[: max(64, len(data) // 3)], doc[6:]
     return open(os.path.join(FIX, doc), "rb").read(), doc
 
 
-def _digest(doc):
+def _digest_results(res):
+    h = hashlib.sha256()
+    for r in res:
+        h.update(json.dumps(r.to_json(), sort_keys=True, default=repr).encode())
+    return "ok:" + h.hexdigest()[:16] + f":{len(res)}"
+
+
+def _digest(doc, keep=None):
     import sharepoint2text
     data, name = _load(doc)
     try:
-        ex = sharepoint2text.get_extractor(name)
+        ext = doc.split("@")[0].split(":")[1].split("-")[0] if doc.startswith("gen:") else None
+        ex = sharepoint2text.get_extractor(name if name else "x." + ext)
         res = list(ex(io.BytesIO(data), name))
-        h = hashlib.sha256()
-        for r in res:
-            h.update(json.dumps(r.to_json(), sort_keys=True, default=repr).encode())
-        return "ok:" + h.hexdigest()[:16] + f":{len(res)}"
+        if keep is not None:
+            keep.append(res)
+        return _digest_results(res)
     except Exception as e:  # noqa
+        if keep is not None:
+            keep.append(None)
         return "exc:" + type(e).__name__
 
 
@@ -385,13 +419,26 @@ def _history_task(arg):
         _digest(x)
     ref = _snapshot()
     for h in hists:
+        kept = []
         for i, x in enumerate(h):
-            dg = _digest(x)
+            dg = _digest(x, kept)
             trans += 1
             outs.add(dg)
             if dg != base[x]:
                 fails.append(("history-result", "hist", {"history": h[: i + 1]}, f"after {h[:i]} document {x} gives {dg}, isolated baseline {base[x]}"))
                 break
+        else:
+            # results handed out earlier must not be rewritten by later extractions
+            for i, (x, res) in enumerate(zip(h, kept)):
+                if res is not None and i < len(h) - 1:
+                    try:
+                        again = _digest_results(res)
+                    except Exception as e:  # noqa
+                        again = "exc:" + type(e).__name__
+                    if again != base[x]:
+                        fails.append(("history-aliasing", "hist", {"history": h}, f"the result of {x} (step {i}) changed after the later extractions {h[i + 1:]}: {again} vs {base[x]}"))
+                        break
+        del kept
         snap = _snapshot()
         ev += 1
         if snap != ref:
@@ -498,7 +545,7 @@ def run(ctx):
     # histories
     alpha = history_alphabet(ctx.tier)
     failing = [f"trunc:{a}" for a in alpha[:: max(1, len(alpha) // 4)]][:4]
-    alpha = alpha + failing
+    alpha = alpha + failing + sorted(_gen_docs())
     bres = P.run_all("verif.props.C15", "_baseline_task", alpha, n=ctx.ncpu, hard_timeout=600)
     base = {}
     for a, (st, r, _) in zip(alpha, bres):
